@@ -208,6 +208,23 @@ def adversarial():
         one(f'type-form:alias:{n}', f'type TA: {t}\nprint("t")\n')
         one(f'type-form:generic-argument:{n}', f'def tv: List[{t}] := []\nprint("t")\n')
         one(f'type-form:called:{n}', f'def tf(h: {t}) -> Int => h(1)\nprint("t")\n')
+    # diagnostics that quote long lines with multi-byte characters (renderers that clip or pad count bytes or characters)
+    for ch, cn in (('é', '2byte'), ('∑', '3byte'), ('😀', '4byte')):
+        for w_ in (39, 40, 59, 60, 61, 79, 80, 99, 100, 118, 119, 120, 121, 200):
+            body = ch * w_
+            one(f'wide:{cn}:{w_}:error-next-line', f'def ss := "{body}"\ndef y: Int := ss\n')
+            one(f'wide:{cn}:{w_}:error-same-line', f'def ss: Int := "{body}"\n')
+            one(f'wide:{cn}:{w_}:error-previous-line', f'def y: Int := "s"\ndef ss := "{body}"\n')
+            one(f'wide:{cn}:{w_}:syntax-error-after', f'def ss := "{body}" )\n')
+            one(f'wide:{cn}:{w_}:comment-then-error', f'# {body}\ndef y: Int := "s"  # {body}\n')
+            one(f'wide:{cn}:{w_}:ascii-prefix', f'def ss := "{"a" * (w_ % 7)}{body}"\ndef y: Int := ss\n')
+    # strings nested in the interpolations of strings (each level re-enters the lexer)
+    for d in (2, 4, 8, 12, 16, 20, 24, 28):
+        src = '"x"'
+        for _ in range(d):
+            src = '"{' + src + '}"'
+        one(f'nested-interpolation-{d}', f'def s := {src}\n')
+        one(f'nested-interpolation-print-{d}', f'print({src})\nprint(zq_undefined)\n')
     # multi-file
     A.append(('multi-same-class', [('a.mamba', 'class A\n    def x: Int := 1\n'), ('b.mamba', 'class A\n    def y: Str := "s"\n')]))
     A.append(('multi-import', [('a.mamba', 'class Base\n    def x: Int := 1\n'), ('b.mamba', 'from a import Base\nclass Child: Base\ndef c := Child()\nprint(c.x)\n')]))
